@@ -141,7 +141,7 @@ PROPS = {
     'C10': {
         'steps': [{'script': 'corr_calib.py', 'timeout': 1500, 'timeout_thorough': 6000},
                   {'script': 'corr_plan.py', 'timeout': 1500, 'timeout_thorough': 6000}],
-        'required_theorems': ['C10_scope_eq', 'C10_same_resolution', 'C10_scope_per_op',
+        'required_theorems': ['C10_static_resolution_implies_need_calibration', 'C10_scope_eq', 'C10_same_resolution', 'C10_scope_per_op',
                               'C10_calibration_records_every_runtime_operand_of_selected_ops',
                               'C10_missing_statistics_only_for_absent_runtime_entry'],
         'rule': CALIB_RULE,
